@@ -208,6 +208,25 @@ pub fn covered_lines(lines: &[model::Line], input_len: usize, matches: &[(usize,
 }
 
 pub fn check(case: &Case) -> Verdict {
+    let v = check_inner(case);
+    if let Verdict::Fail(_) = &v {
+        // attribute failures on inputs where the regex engine contradicts itself
+        if let Ok(m) = case.pat.build() {
+            let term = case.cfg.term;
+            // (no instance is known for this property, so such a case counts as undecidable
+            // rather than as a finding)
+            return match crate::mat::attribute_engine(v, &m, None, &case.input.0, term.byte(), term == Term::Crlf) {
+                Verdict::Fail(f) if f.facts.iter().any(|x| x == crate::mat::ENGINE_FACT) => {
+                    Verdict::Reject("the regex engine contradicts itself across start offsets on this input (undecidable; see the C01 finding)")
+                }
+                v => v,
+            };
+        }
+    }
+    v
+}
+
+fn check_inner(case: &Case) -> Verdict {
     let m = match case.pat.build() {
         Ok(m) => m,
         Err(_) => return Verdict::Reject("builder rejected the pattern"),
